@@ -415,6 +415,25 @@ fn boundary_values<T: IntTy>() -> Vec<i128> {
             put(-((1i128 << k) + d));
         }
     }
+    // positions relative to the type's own span: a quarter, half and three quarters of the way from 0 to
+    // MIN and to MAX (+-1), so that every type has ranges longer than half its span that touch neither
+    // end, ranges of exactly half the span, and ranges from the middle to either end
+    for e in [mn, mx] {
+        for (num, den) in [(1i128, 4i128), (1, 2), (3, 4)] {
+            for d in [-1i128, 0, 1] {
+                put(e / den * num + d);
+            }
+        }
+    }
+    // round decimal bounds as a caller writes them: the largest power of ten of the type, half of it, 5x it
+    let mut p10 = 1i128;
+    while p10 * 10 <= mx {
+        p10 *= 10;
+    }
+    for v in [p10 / 2, p10, 5 * p10] {
+        put(v);
+        put(-v);
+    }
     s.into_iter().map(|x| x.1).collect()
 }
 
@@ -430,7 +449,65 @@ fn boundary_lengths<T: IntTy>() -> Vec<u128> {
         }
     }
     l.insert(T::max() as u128); // length MAX
+    // lengths relative to the span 2^BITS of the type: three quarters of it (+-1) and the span less a few
+    // values (half the span +-1, the span and the span - 1 are among the 2^k +- 1 above)
+    let span = 1u128 << T::BITS;
+    l.extend([span / 4 * 3 - 1, span / 4 * 3, span / 4 * 3 + 1]);
+    l.extend([2u128, 3, 255, 256].iter().map(|d| span - d));
     l.into_iter().collect()
+}
+
+/// What the case list of one (type, form) contains of the long ranges: ranges of more than half the span
+/// of the type, ranges touching MIN, touching MAX, and the longest range the form can denote
+/// (MIN..MAX, MIN..=MAX, ..MAX, ..=MAX, ..).
+#[derive(Default, Clone, Copy, Debug)]
+pub struct LongRanges {
+    pub over_half_span: u64,
+    pub from_min: u64,
+    pub to_max: u64,
+    pub from_min_over_half_span: u64,
+    pub to_max_over_half_span: u64,
+    pub neither_end_over_half_span: u64,
+    pub longest_of_the_form: bool,
+}
+
+pub fn long_ranges<T: IntTy>(form: Form, cs: &[(i128, i128)]) -> LongRanges {
+    let (mn, mx) = (T::min(), T::max());
+    let half = 1u128 << (T::BITS - 1);
+    let mut r = LongRanges::default();
+    for &(a, b) in cs {
+        // the interval the draws of the library's reading of the form cover (`..b` = 0..b)
+        let (lo, hi) = must_reach::<T>(form, a, b);
+        let over = (hi - lo + 1) as u128 > half;
+        // "touches MAX": the written end is MAX (for a..b and ..b that is the largest end there is)
+        let (at_min, at_max) = (lo == mn, form == Form::Full || b == mx);
+        r.over_half_span += over as u64;
+        r.from_min += at_min as u64;
+        r.to_max += at_max as u64;
+        r.from_min_over_half_span += (over && at_min) as u64;
+        r.to_max_over_half_span += (over && at_max) as u64;
+        r.neither_end_over_half_span += (over && !at_min && !at_max) as u64;
+        r.longest_of_the_form |= match form {
+            Form::Range => a == mn && b == mx,
+            Form::Incl => a == mn && b == mx,
+            Form::To | Form::ToIncl => b == mx,
+            Form::Full => true,
+        };
+    }
+    r
+}
+
+impl LongRanges {
+    /// Does the list contain what every (type, form) must contain?  A `..b` / `..=b` of a signed type
+    /// covers at most half the span and cannot start at MIN in the library's reading; `..` is one range.
+    pub fn complete<T: IntTy>(&self, form: Form) -> bool {
+        let two_ended = matches!(form, Form::Range | Form::Incl);
+        let to_unsigned = matches!(form, Form::To | Form::ToIncl) && !T::SIGNED;
+        self.longest_of_the_form
+            && self.to_max >= 1
+            && (!(two_ended || to_unsigned) || (self.over_half_span >= 1 && self.to_max_over_half_span >= 1))
+            && (!two_ended || (self.from_min >= 1 && self.from_min_over_half_span >= 1 && self.neither_end_over_half_span >= 1))
+    }
 }
 
 /// In-domain cases of one (type, form), simplest first; the second value counts the enumerated
@@ -503,6 +580,8 @@ pub struct TypeFormReport {
     pub summary: Summary,
     pub skipped: u64,
     pub skipped_panicked: u64,
+    pub long: LongRanges,
+    pub long_complete: bool,
     pub sample: Value,
 }
 
@@ -520,7 +599,8 @@ pub fn run_type_form<T: IntTy>(form: Form, exhaustive: bool) -> TypeFormReport {
     let raw = u64::MAX - 1;
     let sample = json!({"family": "int_range_in_bounds", "type": T::NAME, "range": form.show(a, b), "raw": raw.to_string(),
         "observed": format!("{:?}", catch(|| T::gen(form, a, b, raw)))});
-    TypeFormReport { ty: T::NAME, form, summary, skipped: skipped.len() as u64, skipped_panicked, sample }
+    let long = long_ranges::<T>(form, &cs);
+    TypeFormReport { ty: T::NAME, form, summary, skipped: skipped.len() as u64, skipped_panicked, long, long_complete: long.complete::<T>(form), sample }
 }
 
 /// `exh_pairs`: every (start,end) for a..b and a..=b; `exh_to`: every end for ..b and ..=b.
